@@ -250,7 +250,16 @@ def cbmc_cmd(c, linked, extra=()):
     uw = c.get("unwind")
     if uw is not None:
         cmd += ["--unwind", str(uw)]
-    us = c.get("unwindset")
+    us = list(c.get("unwindset") or [])
+    ua = c.get("unwind_functions")     # {"function": bound}: every loop of that function gets the bound (loop ids are looked up)
+    if ua:
+        key = linked + ".loops"
+        if not os.path.exists(key):
+            rc, out, err, _, _ = sh(["cbmc", linked, "--show-loops"], timeout=120)
+            open(key, "w").write(out)
+        for m in re.finditer(r"^Loop (\S+?)\.(\d+):", open(key).read(), re.M):
+            if m.group(1) in ua:
+                us.append("%s.%s:%d" % (m.group(1), m.group(2), ua[m.group(1)]))
     if us:
         cmd += ["--unwindset", ",".join(us)]
     cmd += [str(x) for x in c.get("cbmc", [])]
@@ -671,6 +680,67 @@ def native_replay(rdir):
     # reproduced: harness assertion (1), sanitizer report, or a signal
     ok = (rc == 1 and "ASSERTION FAILED" in e) or "AddressSanitizer" in e or "runtime error" in e or (rc is not None and rc < 0) or to
     return ok, log
+
+
+# ---------------------------------------------------------------- native janet of the current tree (E9)
+def native_janet():
+    """bootstraps janet from /repo's working tree (janet_boot -> amalgamated janet.c) and builds tools/fdump against it.
+    returns dict(dir=..., janet=..., fdump=...)"""
+    d = os.path.join(BUILD, "janet", tree_hash())
+    out = {"dir": d, "janet": os.path.join(d, "janet"), "fdump": os.path.join(d, "fdump"), "amalg": os.path.join(d, "janet.c")}
+    with lock_for(d):
+        if os.path.exists(out["fdump"]) and os.path.exists(out["janet"]):
+            return out
+        root = os.path.join(BUILD, "janet")
+        if os.path.isdir(root):
+            for x in os.listdir(root):
+                if x != tree_hash():
+                    shutil.rmtree(os.path.join(root, x), ignore_errors=True)
+        os.makedirs(os.path.join(d, "boot"), exist_ok=True)
+        srcs = sorted(glob.glob(os.path.join(REPO, "src/core/*.c"))) + sorted(glob.glob(os.path.join(REPO, "src/boot/*.c")))
+        base = ["cc", "-O0", "-w", "-std=c99", "-I%s/src/include" % REPO, "-I%s/src/conf" % REPO, "-DJANET_BOOTSTRAP", "-DJANET_BUILD=\"vf\"", "-fPIC"]
+        def cc(u):
+            o = os.path.join(d, "boot", os.path.basename(u)[:-2] + ".o")
+            rc, _, e, _, _ = sh(base + ["-c", u, "-o", o])
+            if rc != 0:
+                raise BuildError("bootstrap compile failed: %s: %s" % (u, e[-1500:]))
+            return o
+        with ThreadPoolExecutor(max_workers=16) as ex:
+            objs = list(ex.map(cc, srcs))
+        boot = os.path.join(d, "janet_boot")
+        rc, _, e, _, _ = sh(["cc", "-o", boot] + objs + ["-lm", "-lpthread", "-ldl", "-lrt"])
+        if rc != 0:
+            raise BuildError("janet_boot link failed: " + e[-1500:])
+        rc, o, e, _, _ = sh([boot, ".", "JANET_PATH", "/usr/local/lib/janet"], cwd=REPO, timeout=300)
+        if rc != 0 or len(o) < 100000:
+            raise BuildError("janet_boot failed: " + e[-1500:])
+        open(out["amalg"], "w").write(o)
+        shutil.copy(os.path.join(REPO, "src/include/janet.h"), os.path.join(d, "janet.h"))
+        shutil.copy(os.path.join(REPO, "src/conf/janetconf.h"), os.path.join(d, "janetconf.h"))
+        lib = os.path.join(d, "janet.o")
+        rc, _, e, _, _ = sh(["cc", "-O1", "-w", "-std=c99", "-I" + d, "-c", out["amalg"], "-o", lib], timeout=600)
+        if rc != 0:
+            raise BuildError("amalgamation compile failed: " + e[-1500:])
+        rc, _, e, _, _ = sh(["cc", "-O1", "-w", "-std=c99", "-I" + d, os.path.join(REPO, "src/mainclient/shell.c"), lib, "-o", out["janet"], "-lm", "-lpthread", "-ldl", "-lrt"])
+        if rc != 0:
+            raise BuildError("janet link failed: " + e[-1500:])
+        rc, _, e, _, _ = sh(["cc", "-O1", "-w", "-I" + d, os.path.join(VERIF, "tools/fdump.c"), lib, "-o", out["fdump"], "-lm", "-lpthread", "-ldl", "-lrt"])
+        if rc != 0:
+            raise BuildError("fdump build failed: " + e[-1500:])
+    return out
+
+
+def fdump(janet_src, outpath):
+    """compile janet source text with the current tree's compiler and write the C initialisers to outpath"""
+    nj = native_janet()
+    os.makedirs(os.path.dirname(outpath), exist_ok=True)
+    srcp = outpath + ".janet"
+    open(srcp, "w").write(janet_src)
+    rc, o, e, _, _ = sh([nj["fdump"], srcp], timeout=60)
+    if rc != 0:
+        raise BuildError("fdump failed (rc=%s) on %s: %s" % (rc, srcp, e[-800:]))
+    open(outpath, "w").write(o)
+    return outpath
 
 
 # ---------------------------------------------------------------- check
